@@ -232,10 +232,17 @@ impl<F: Write + Seek> MiniAllocator<F> {
     ) -> io::Result<u32> {
         debug_assert_ne!(start_mini_sector, consts::END_OF_CHAIN);
         let mut last_mini_sector = start_mini_sector;
+        // As in Allocator::extend_chain, don't trust the chain to be
+        // well-formed.
+        let mut num_links = 0;
         loop {
-            let next = self.minifat[last_mini_sector as usize];
+            let next = self.next_mini_sector(last_mini_sector)?;
             if next == consts::END_OF_CHAIN {
                 break;
+            }
+            num_links += 1;
+            if num_links > self.minifat.len() {
+                invalid_data!("Mini sector chain contains a cycle");
             }
             last_mini_sector = next;
         }
@@ -331,8 +338,17 @@ impl<F: Write + Seek> MiniAllocator<F> {
 
     /// Deallocates the specified mini sector.
     fn free_mini_sector(&mut self, mini_sector: u32) -> io::Result<()> {
-        if self.minifat[mini_sector as usize] == consts::FREE_SECTOR {
-            invalid_input!("sector {} freed twice", mini_sector);
+        match self.minifat.get(mini_sector as usize) {
+            None => invalid_data!(
+                "Found reference to mini sector {}, but MiniFAT has only {} \
+                 entries",
+                mini_sector,
+                self.minifat.len()
+            ),
+            Some(&consts::FREE_SECTOR) => {
+                invalid_input!("sector {} freed twice", mini_sector)
+            }
+            Some(_) => {}
         }
         self.set_minifat(mini_sector, consts::FREE_SECTOR)?;
         self.free_mini_sectors.push(mini_sector);
@@ -361,7 +377,7 @@ impl<F: Write + Seek> MiniAllocator<F> {
     ) -> io::Result<()> {
         let mut mini_sector = start_mini_sector;
         while mini_sector != consts::END_OF_CHAIN {
-            let next = self.minifat[mini_sector as usize];
+            let next = self.next_mini_sector(mini_sector)?;
             self.free_mini_sector(mini_sector)?;
             mini_sector = next;
         }
@@ -374,7 +390,7 @@ impl<F: Write + Seek> MiniAllocator<F> {
         &mut self,
         mini_sector: u32,
     ) -> io::Result<()> {
-        let next = self.minifat[mini_sector as usize];
+        let next = self.next_mini_sector(mini_sector)?;
         self.set_minifat(mini_sector, consts::END_OF_CHAIN)?;
         self.free_mini_chain(next)?;
         Ok(())
